@@ -65,15 +65,13 @@ instance (loads : List Stmt) : Decidable (NamesOk loads) := by unfold NamesOk; i
 instance (r : String) : Decidable (WellFormedRev r) := by unfold WellFormedRev; infer_instance
 instance (loads : List Stmt) : Decidable (DatesOk loads) := by unfold DatesOk; infer_instance
 
-private theorem names_ok {loads : List Stmt} (h : NamesOk loads) : ∀ t ∈ loads, NoAt t.arg := h
-
 /-- **The registry is the specification.**  After any sequence of loads every key of both tables is
 bound as `Spec.Registry.denotes` says, and a load is rejected exactly when a load with the same
 header came before it. -/
 theorem registry_eq_spec (loads : List Stmt) (hn : NamesOk loads) (hd : DatesOk loads) :
     (∀ sub key, bound loads sub key = denotes (loads.map header) sub key) ∧
     rejectedFlags loads = outcomes (loads.map header) := by
-  obtain ⟨inv, hout⟩ := loadAll_spec loads (names_ok hn)
+  obtain ⟨inv, hout⟩ := loadAll_spec loads hn
   refine ⟨fun sub key => ?_, hout⟩
   unfold bound
   rw [inv.look, denotesS_eq_denotes]
@@ -88,14 +86,14 @@ theorem registry_perm_invariant {loads₁ loads₂ : List Stmt} (hp : loads₁.P
     (∀ sub key, bound loads₁ sub key = bound loads₂ sub key) ∧
     (rejectedHeaders loads₁).Perm (rejectedHeaders loads₂) := by
   have hn₂ : NamesOk loads₂ := fun s hs => hn s (hp.mem_iff.mpr hs)
-  obtain ⟨inv₁, out₁⟩ := loadAll_spec loads₁ (names_ok hn)
-  obtain ⟨inv₂, out₂⟩ := loadAll_spec loads₂ (names_ok hn₂)
+  obtain ⟨inv₁, out₁⟩ := loadAll_spec loads₁ hn
+  obtain ⟨inv₂, out₂⟩ := loadAll_spec loads₂ hn₂
   have hph : (loads₁.map header).Perm (loads₂.map header) := hp.map header
   constructor
   · intro sub key
     unfold bound
     rw [inv₁.look, inv₂.look]
-    exact denotesS_perm hph (noAt_hdrs (names_ok hn)) sub key
+    exact denotesS_perm hph (noAt_hdrs hn) sub key
   · unfold rejectedHeaders rejectedFlags
     rw [out₁, out₂]
     unfold outcomes
@@ -108,8 +106,8 @@ theorem registry_perm_invariant_stmt {loads₁ loads₂ : List Stmt} (hp : loads
     (hnodup : (loads₁.map header).Nodup) (sub : Bool) (key : String) :
     boundStmt loads₁ sub key = boundStmt loads₂ sub key := by
   have hn₂ : NamesOk loads₂ := fun s hs => hn s (hp.mem_iff.mpr hs)
-  obtain ⟨inv₁, _⟩ := loadAll_spec loads₁ (names_ok hn)
-  obtain ⟨inv₂, _⟩ := loadAll_spec loads₂ (names_ok hn₂)
+  obtain ⟨inv₁, _⟩ := loadAll_spec loads₁ hn
+  obtain ⟨inv₂, _⟩ := loadAll_spec loads₂ hn₂
   have hb := (registry_perm_invariant hp hn).1 sub key
   unfold bound at hb
   unfold boundStmt
@@ -144,7 +142,7 @@ theorem bare_is_latest (loads : List Stmt) (hn : NamesOk loads) (hd : DatesOk lo
       h ∈ loads.map header ∧ h.isSub = (header s).isSub ∧ h.name = (header s).name ∧
       ∀ t ∈ loads, (header t).isSub = (header s).isSub → (header t).name = (header s).name →
         revLe (header t).rev h.rev = true := by
-  obtain ⟨inv, _⟩ := loadAll_spec loads (names_ok hn)
+  obtain ⟨inv, _⟩ := loadAll_spec loads hn
   have hsn : NoAt (header s).name := hn s hs
   have hmem : header s ∈ loads.map header := List.mem_map_of_mem hs
   -- something is bound: the headers of that kind and name are not empty
@@ -186,15 +184,15 @@ theorem exact_revision_when_loaded (loads : List Stmt) (hn : NamesOk loads)
     {s : Stmt} (hs : s ∈ loads) (hr : (header s).rev ≠ "")
     (i : Stmt) (hi : i.arg = (header s).name) (hd : i.argOf? "revision-date" = some (header s).rev) :
     ∃ m, (Registry.loadAll loads).1.findModule (header s).isSub i = some m ∧ hdrOf m = header s := by
-  obtain ⟨inv, _⟩ := loadAll_spec loads (names_ok hn)
+  obtain ⟨inv, _⟩ := loadAll_spec loads hn
   have hmem : header s ∈ loads.map header := List.mem_map_of_mem hs
   obtain ⟨x, hx⟩ := denotesS_exact_of_mem hmem hr
   have hxeq : x = header s := by
     obtain ⟨hm, hsub, h3⟩ := denotesS_mem hx
     rcases h3 with ⟨_, hk⟩ | hk
-    · have := key_inj (noAt_hdrs (names_ok hn) x hm) (hn s hs) hk
+    · have := key_inj (noAt_hdrs hn x hm) (hn s hs) hk
       cases x; cases hh : header s; simp_all
-    · exact absurd hk.symm (key_ne_name (noAt_hdrs (names_ok hn) x hm))
+    · exact absurd hk.symm (key_ne_name (noAt_hdrs hn x hm))
   have hlook := inv.look (header s).isSub ((header s).name ++ "@" ++ (header s).rev)
   rw [hx, hxeq] at hlook
   cases hl : lk (Registry.loadAll loads).1 (header s).isSub ((header s).name ++ "@" ++ (header s).rev) with
@@ -210,7 +208,7 @@ exactly when an earlier load has the same kind, name and latest revision — so 
 the one that comes second is rejected, whichever it is. -/
 theorem duplicate_rejected (loads : List Stmt) (hn : NamesOk loads) (j : Nat) (hj : j < loads.length) :
     (rejectedFlags loads)[j]? = some (decide (∃ i, ∃ hi : i < j, header (loads[i]'(by omega)) = header loads[j])) := by
-  obtain ⟨_, hout⟩ := loadAll_spec loads (names_ok hn)
+  obtain ⟨_, hout⟩ := loadAll_spec loads hn
   unfold rejectedFlags
   rw [hout]
   unfold outcomes
@@ -332,14 +330,17 @@ theorem bestIn_reading (m : Name) (es : Listing) :
   refine ⟨fun h => ?_, fun fn h => bestIn_mem h, fun hno fn h => ?_, ?_⟩
   · rw [← hY] at h ⊢; exact exact_of_mem_files h
   · -- no exact match: the result is `latestDated`
+    have hno' : ¬ (files es).contains (m ++ ".yang".toList) = true := by simpa using hno
     have hex : exact? m es = none := by
-      unfold exact?; simp [hno]
+      unfold exact?; rw [if_neg hno']
     unfold bestIn at h; rw [hex] at h
     unfold latestDated at h
     rw [Option.map_eq_some_iff] at h
     obtain ⟨c, hc, rfl⟩ := h
     have hm := List.mem_of_find?_eq_some hc
-    have hP := List.all_eq_true.mp (List.find?_some hc)
+    have hP0 : ((dated m es).all fun c' => c'.2.le c.2) = true :=
+      List.find?_some (p := fun c : Name × Spec.Date => (dated m es).all fun c' => c'.2.le c.2) hc
+    have hP := List.all_eq_true.mp hP0
     refine ⟨c.2, (mem_dated hm).1, ?_⟩
     intro fn' hfn' d' hd'
     have : fn' ∈ revsOf m es := by
